@@ -323,7 +323,16 @@ pub fn run(input: &Value) -> Option<Value> {
     let real_trace = tr.lock().unwrap().clone();
     let (real_vars, real_outcome): (Option<BTreeMap<String, String>>, Result<(), Option<usize>>) = match res {
         Ok(ctx) => (Some(ctx.variables.iter().map(|(k, v)| (k.clone(), v.clone())).collect()), Ok(())),
-        Err(ScriptError::Runtime(_, m)) => (None, Err(m.and_then(|m| m.line))),
+        Err(ref e @ ScriptError::Runtime(_, ref m)) => {
+            // what is printed for the failure names the same line as the error value
+            if let Some(n) = m.as_ref().and_then(|m| m.line) {
+                let txt = e.to_string();
+                if !txt.contains(&format!("Line: {}", n)) {
+                    return Some(json!({"script": script, "what": "the text of the failure does not name the failing instruction's line", "line": n, "text": txt}));
+                }
+            }
+            (None, Err(m.as_ref().and_then(|m| m.line)))
+        }
         Err(_) => (None, Err(None)),
     };
     if real_trace != trace {
